@@ -7,11 +7,19 @@ EXPLANATION = (
     "readers, character classes, hex helpers, print_code_point_at) every index, key, ord/chr "
     "value and utf-16 decode is safe and the only exception that can leave is "
     "GraphQLSyntaxError, for all source strings and offsets (symbolic body, no bound). "
-    "Loop variants prove termination of every lexer loop. The parser, graphql_impl and the "
-    "resolver-exception half of the statement are listed under 'unverified' until their "
-    "contracts are added.")
+    "Loop variants prove termination of every lexer loop. Every method of Parser, Parser.__init__ "
+    "and the five entry points (parse, parse_value, parse_const_value, parse_type, "
+    "parse_schema_coordinate; source a str or a Source) are under generated contracts "
+    "(contracts/parser.py): the only exception that can leave is GraphQLSyntaxError - keyword "
+    "validity of every AST node constructor, the dispatch tables behind getattr(self, 'parse_...'), "
+    "Enum lookups and None-able token values included. The higher-order helpers (many, any, "
+    "optional_many, delimited_many) are verified against a generic parser-function contract that "
+    "every call site must meet. graphql_impl and the resolver-exception half of the statement are "
+    "listed under 'unverified'.")
 UNVERIFIED = [
-    "Parser methods (exception frame), the five parse entry points",
+    "Lexer.advance / Lexer.lookahead: assumed contract (raise only GraphQLSyntaxError); the "
+    "object invariant of the linked token chain they need is outside the engine's reach",
+    "termination of the parser's loops and recursion (no progress measure over the token chain)",
     "graphql_impl parse/validate stages; validate() and the executor never raising",
     "execute_field/handle_field_error/located_error wrapping of resolver exceptions",
     "GraphQLSyntaxError.__init__ -> GraphQLError.__init__ is assumed total (it calls "
@@ -37,6 +45,11 @@ def lift(model, req):
         cands += [b, b[:50]]
         for i in range(min(len(b), 12)):
             cands += [b[i:], '"' + b[i:], '{ f(a: "' + b[i:], '"""' + b[i:]]
+    if "suggestion_list" in str(req.get("target", "")):
+        return lift_suggestions()
+    if ".parser." in str(req.get("target", "")).replace(":", ".") and not bodies:
+        from .parser_replay import search
+        return search()
     seen = set()
     for text in cands:
         if text in seen:
@@ -53,7 +66,36 @@ def lift(model, req):
     return {"confirmed": False}
 
 
+def lift_suggestions():
+    """Unknown keys of an input-object variable value reach suggestion_list: search keys whose
+    lower-cased form has another length (the solver's model leaves str.lower() unconstrained)."""
+    import sys
+    from graphql import build_schema, graphql_sync
+    schema = build_schema("input I { abc: String, name: String } type Query { f(i: I): String }")
+    odd = [chr(c) for c in range(sys.maxunicode + 1)
+           if not 0xD800 <= c <= 0xDFFF and len(chr(c).lower()) != 1][:40]
+    keys = []
+    for ch in odd + ["\u0130"]:
+        keys += [ch, ch + "b", "a" + ch, ch + "bc", "ab" + ch, ch + ch, "nam" + ch, ch + "ame"]
+    for key in keys:
+        try:
+            r = graphql_sync(schema, "query($i: I){ f(i:$i) }", variable_values={"i": {key: 1}})
+            assert r.errors
+        except Exception as e:  # noqa: BLE001
+            return {"confirmed": True, "entry": "graphql_sync",
+                    "input": {"query": "query($i: I){ f(i:$i) }", "variables": {"i": {key: 1}}},
+                    "observed": f"{type(e).__name__}: {e}"}
+    return {"confirmed": False}
+
+
 WITNESSES = {
+ "F14-variable-key-whose-lowercase-is-longer": r'''
+from graphql import build_schema, graphql_sync
+s = build_schema("input I { abc: String } type Query { f(i: I): String }")
+for key in ["\u0130b", "\u0130", "a\u0130", "\u0130\u0130"]:
+    r = graphql_sync(s, "query($i: I){ f(i:$i) }", variable_values={"i": {key: 1}})
+    assert r.data is None and r.errors
+''',
  "F13-subscription-defer-invalid-argument": r'''
 from graphql import build_schema, graphql_sync, parse, validate
 s = build_schema("type Query { a: Int } type Subscription { a: Int }")
